@@ -415,6 +415,9 @@ def check(pid, tier, replay=None):
     evidence_path = os.path.join(EVIDENCE_DIR, pid + ".json")
     replay_dir = REPLAY_DIR
     os.makedirs(replay_dir, exist_ok=True)
+    if not replay:
+        for old_rp in glob.glob(os.path.join(replay_dir, "%s-%s-%d-*.json" % (pid, tier, seed))) + glob.glob(os.path.join(replay_dir, "%s-%s-%d.json" % (pid, tier, seed))):
+            os.remove(old_rp)
     broken = []       # broken proof obligations / ties (strings)
     notes = []
 
